@@ -142,7 +142,7 @@ def match_known(known, cname, ob_id, labels, tags=None):
     for k in known or []:
         if k.get('status', 'open') != 'open':
             continue
-        if k['contract'] in (cname, '*') and k['clause'] == clause:
+        if k['contract'] in (cname, '*') and (k['clause'] == clause or clause in k.get('also_clauses', [])):
             cf = k.get('case')
             if cf and any(labels.get(a) != b for a, b in cf.items()):
                 continue
